@@ -50,7 +50,7 @@ Theorem lockfree_free_reuse :
   forall m ops l1 l2 off req req2,
     Forall (legal m) ops -> live (final Fixed m ops) = l1 ++ (off, req) :: l2 ->
     exists p', dealloc Fixed (pl (final Fixed m ops)) (Z.of_N off) req = (true, p') /\
-      (align_size req <= FAST_BIN_THRESHOLD -> 0 < req2 -> req2 + 7 < W64 ->
+      (align_size req <= FAST_BIN_THRESHOLD -> 0 < req2 -> req2 < W63 ->
        bin_of (align_size req2) = bin_of (align_size req) ->
        fst (alloc Fixed p' req2) = Some off).
 Proof. exact lockfree_free_reuse_proof. Qed.
@@ -58,7 +58,7 @@ Check lockfree_free_reuse :
   forall m ops l1 l2 off req req2,
     Forall (legal m) ops -> live (final Fixed m ops) = l1 ++ (off, req) :: l2 ->
     exists p', dealloc Fixed (pl (final Fixed m ops)) (Z.of_N off) req = (true, p') /\
-      (align_size req <= FAST_BIN_THRESHOLD -> 0 < req2 -> req2 + 7 < W64 ->
+      (align_size req <= FAST_BIN_THRESHOLD -> 0 < req2 -> req2 < W63 ->
        bin_of (align_size req2) = bin_of (align_size req) ->
        fst (alloc Fixed p' req2) = Some off).
 Print Assumptions lockfree_free_reuse.
